@@ -28,9 +28,11 @@ def run(tier, seed):
         missing.append(k)
         rep.violation(k, k, "-")
     extra_results = []
+    import prim_layer
+    extra_results += prim_layer.run_c03(sr, rep, tier)
     try:
         import bb_layer
-        extra_results = bb_layer.run_c03(sr, rep, tier)
+        extra_results += bb_layer.run_c03(sr, rep, tier)
     except ImportError:
         pass
     cov = {"candidates": ncand, "confirmed": nconf, "unconfirmed": nunconf, "details": details[:20], "levels_checked": sum(len(v) for v in sr.levels.values()),
